@@ -335,17 +335,11 @@ func iBin(op string, a, b Int) Int {
 			r := b
 			r.Off = (b.Off + a.C) & mask(w)
 			r.W, r.Signed = w, sg
-			if a.C != 0 {
-				r.RI = ""
-			}
 			return r
 		}
 		if b.IsC {
 			r := a
 			r.Off = (a.Off + b.C) & mask(w)
-			if b.C != 0 {
-				r.RI = ""
-			}
 			return r
 		}
 		return Int{W: w, Signed: sg, Sym: "(bvadd " + a.Sym + " " + b.Sym + ")", Off: (a.Off + b.Off) & mask(w)}
@@ -353,9 +347,6 @@ func iBin(op string, a, b Int) Int {
 		if b.IsC {
 			r := a
 			r.Off = (a.Off - b.C) & mask(w)
-			if b.C != 0 {
-				r.RI = ""
-			}
 			return r
 		}
 		if !a.IsC {
@@ -597,6 +588,34 @@ func iCmp(op string, a, b Int) Bool {
 	}
 	// relaxed float mode: values with an SMT Int twin are compared in the Int domain (keeps
 	// bit-vectors out of the real-arithmetic queries)
+	// RI is the Int twin of the BASE term Sym (the constant offset Off is not included).  Equality of two 64-bit values
+	// base+off (mod 2^64) whose bases lie in [-2^63, 2^63): x - y is d, d - 2^64 or d + 2^64 for d = offB - offA.
+	if a.Signed && a.W == 64 && b.W == 64 && (op == "==" || op == "!=") && a.RI != "" && (b.RI != "" || b.IsC) && (a.Off != 0 || (!b.IsC && b.Off != 0)) {
+		x := a.RI
+		var y string
+		var d int64
+		if b.IsC {
+			y = "0"
+			d = int64(b.C - a.Off)
+		} else {
+			y = b.RI
+			d = int64(b.Off - a.Off)
+		}
+		lit := func(v *big.Int) string {
+			if v.Sign() < 0 {
+				return "(- " + new(big.Int).Neg(v).String() + ")"
+			}
+			return v.String()
+		}
+		two64 := new(big.Int).Lsh(big.NewInt(1), 64)
+		dd := big.NewInt(d)
+		diff := "(- " + x + " " + y + ")"
+		eq := "(or (= " + diff + " " + lit(dd) + ") (= " + diff + " " + lit(new(big.Int).Sub(dd, two64)) + ") (= " + diff + " " + lit(new(big.Int).Add(dd, two64)) + "))"
+		if op == "!=" {
+			return symBool("(not " + eq + ")")
+		}
+		return symBool(eq)
+	}
 	if a.Signed && (a.RI != "" || a.IsC) && (b.RI != "" || b.IsC) && a.Off == 0 && b.Off == 0 {
 		ri := func(v Int) string {
 			if v.IsC {
